@@ -14,6 +14,9 @@ pub fn run_case(property: &str, kind: &str, case: &Value) -> Option<Vec<Finding>
         "C09" => crate::c09::replay(kind, case),
         "C10" => crate::c10::replay(kind, case),
         "C15" => crate::c15::replay(kind, case),
+        "C07" => crate::c07::replay(kind, case),
+        "C14" => crate::c14::replay(kind, case),
+        "C16" => crate::c16::replay(kind, case),
         "C13" => crate::c13::replay(kind, case),
         "C12" => crate::c12::replay(kind, case),
         "C04" | "C11" | "C17" | "C01" | "C02" | "C03" => crate::gramsweep::replay(property, kind, case),
